@@ -1,6 +1,7 @@
 import RpcVerif.Generated.ProvFacts
 import RpcVerif.Lemmas.ConnProps
 import RpcVerif.Model.Pool
+import RpcVerif.Generated.RouteFacts
 /-
   C19 — context cancellation returns promptly and harms no other call.
   "As soon as" is not a theorem about time: cancellation is shown to be an always-enabled single
@@ -61,5 +62,14 @@ theorem C19_context_error_keeps_the_connection (s : P.State) (id : Nat) :
   by_cases h : j = id
   · subst h; cases hp : s.pcs j <;> simp [hp]
   · simp [h]
+
+/-- The load-balancing Client does not get between a caller and its context: every call form hands
+    the call to the transport method of the same name on every branch — target chosen by the
+    scheduler, by the Director, or none — and CallWithContext passes the caller's own `ctx` (facts
+    read from client.go on every run). So what K proves of `Conn.CallWithContext` is what a caller
+    of `Client.CallWithContext` gets. -/
+theorem C19_client_passes_the_context :
+    (Gen.delegatesCall && Gen.delegatesCallWithContext && Gen.delegatesGo && Gen.delegatesRoundTrip &&
+     Gen.delegatesPing && Gen.delegatesNewStream) = true := by decide
 
 end RpcVerif.Props
